@@ -305,7 +305,7 @@ fn member_alone(m: &Member) -> Result<Vec<u8>, WErr> {
     out
 }
 
-fn c14_case(ms: &[Member], l: &mut Local) {
+pub fn c14_case(ms: &[Member], l: &mut Local) {
     l.evals += 1;
     l.states += 1;
     l.sample(|| format!("{:?}", ms));
